@@ -18,8 +18,11 @@ functional classes / proximal factories and from text-book convex analysis:
   written without any knowledge of a proximal formula, and tangent directions
   for domains with empty interior.
 * Membership in a constraint set is decided on the constraint residual with a
-  rounding tolerance ``64 eps n scale`` (`IND_K`), never on a literal
-  comparison, so that points produced on the boundary count as feasible.
+  rounding tolerance ``(16 n + 180) eps scale`` (`IND_K`, `SHRINK_K`: the
+  library deliberately moves some thresholds by 10*resolution(dtype) = 45 eps,
+  and up to four such steps can be stacked by the calculus rules), never on a
+  literal comparison, so that points produced on the boundary count as
+  feasible.
 
 Derived nodes (`RTranslate`, `RArgScale`, `RLeftScale`, `RQuadPert`,
 `RAddConst`, `RSepSum`, `RCompose`) are evaluated by their definition.
@@ -33,7 +36,8 @@ import numpy as np
 
 LD = np.longdouble
 EPS = float(np.finfo(float).eps)
-IND_K = 64.0
+IND_K = 16.0
+SHRINK_K = 180.0
 INF = float('inf')
 
 
@@ -235,7 +239,8 @@ class RFunc(object):
 
 
 def _tol(n, scale):
-    return IND_K * EPS * max(int(n), 1) * max(float(scale), 1e-300)
+    return (IND_K * max(int(n), 1) + SHRINK_K) * EPS * \
+        max(float(scale), 1e-300)
 
 
 # --------------------------------------------------------------------------
@@ -657,7 +662,7 @@ class RKL(RFunc):
 
     def retract(self, v):
         v = np.array(v, dtype=float)
-        return np.where(v > 0, v, np.abs(v) + 1e-3)
+        return np.where(v > 1e-3, v, np.abs(v) + 1e-3)
 
 
 class RKLConj(RFunc):
@@ -678,7 +683,7 @@ class RKLConj(RFunc):
 
     def retract(self, v):
         v = np.array(v, dtype=float)
-        return np.where(v < 1, v, 2 - v - 1e-3)
+        return np.where(v < 1 - 1e-3, v, 1 - 1e-3 - np.abs(v - 1))
 
 
 class RKLCE(RFunc):
@@ -954,10 +959,10 @@ class RConj(RFunc):
 # problem reduction: "p = argmin_z node(z) + sum_k W_k (z_k - x_k)^2 /
 # (2 sigma_k)" rewritten as equivalent statements about nodes with values
 
-def reduce_problem(node, p, x, sigma):
-    """List of (node', p', x', sigma') with ``node'.has_value`` such that the
-    original statement holds iff all of them hold.  ``sigma`` is a float or a
-    flat positive array.  Exact identities only:
+def descend(node, p, x, sigma):
+    """One level of the exact rewriting of "p = argmin_z node(z) + sum_k W_k
+    (z_k - x_k)^2 / (2 sigma_k)" into statements about the operand(s) of a
+    derived node; None for leaves.  ``sigma`` is a float or a flat array.
 
     * conjugate (Moreau): p = prox_{sigma h*}(x)  <=>
       (x - p)/sigma = prox_{h/sigma}(x/sigma)
@@ -968,34 +973,60 @@ def reduce_problem(node, p, x, sigma):
       separable sums: component-wise;  h(L.), L*L = mu: L p =
       prox_{mu sigma h}(L x).
     """
+    if isinstance(node, RConj):
+        return [(node.h, (x - p) / sigma, x / sigma, 1.0 / sigma)]
+    if isinstance(node, RTranslate):
+        return [(node.h, p - node.y, x - node.y, sigma)]
+    if isinstance(node, RArgScale):
+        return [(node.h, node.s * p, node.s * x, sigma * node.s * node.s)]
+    if isinstance(node, RQuadPert):
+        sig2 = sigma / (1 + 2 * node.a * sigma)
+        return [(node.h, p, sig2 * (x / sigma - node.u), sig2)]
+    if isinstance(node, RAddConst):
+        return [(node.h, p, x, sigma)]
+    if isinstance(node, RLeftScale):
+        return [(node.h, p, x, sigma * node.s)]
+    if isinstance(node, RCompose):
+        return [(node.h, node.L @ p, node.L @ x, sigma * node.mu)]
+    if isinstance(node, RSepSum):
+        out = []
+        for f, sl in zip(node.children, node.sp.slices):
+            sg = sigma[sl] if np.ndim(sigma) else sigma
+            out.append((f, p[sl], x[sl], sg))
+        return out
+    return None
+
+
+def reduce_problem(node, p, x, sigma):
+    """List of (node', p', x', sigma') with ``node'.has_value`` such that the
+    original statement holds iff all of them hold (exact identities only,
+    see `descend`)."""
     p = np.asarray(p, dtype=float)
     x = np.asarray(x, dtype=float)
     if node.has_value:
         return [(node, p, x, sigma)]
-    if isinstance(node, RConj):
-        return reduce_problem(node.h, (x - p) / sigma, x / sigma, 1.0 / sigma)
-    if isinstance(node, RTranslate):
-        return reduce_problem(node.h, p - node.y, x - node.y, sigma)
-    if isinstance(node, RArgScale):
-        return reduce_problem(node.h, node.s * p, node.s * x,
-                              sigma * node.s * node.s)
-    if isinstance(node, RQuadPert):
-        sig2 = sigma / (1 + 2 * node.a * sigma)
-        return reduce_problem(node.h, p, sig2 * (x / sigma - node.u), sig2)
-    if isinstance(node, RAddConst):
-        return reduce_problem(node.h, p, x, sigma)
-    if isinstance(node, RLeftScale):
-        return reduce_problem(node.h, p, x, sigma * node.s)
-    if isinstance(node, RCompose):
-        return reduce_problem(node.h, node.L @ p, node.L @ x,
-                              sigma * node.mu)
-    if isinstance(node, RSepSum):
-        out = []
-        for i, (f, sl) in enumerate(zip(node.children, node.sp.slices)):
-            sg = sigma[sl] if np.ndim(sigma) else sigma
-            out.extend(reduce_problem(f, p[sl], x[sl], sg))
-        return out
-    raise ValueError('reference: cannot reduce {!r}'.format(type(node)))
+    kids = descend(node, p, x, sigma)
+    if kids is None:
+        raise ValueError('reference: cannot reduce {!r}'.format(type(node)))
+    out = []
+    for k in kids:
+        out.extend(reduce_problem(*k))
+    return out
+
+
+def ambient(node, p, x, sigma):
+    """(largest magnitude of the points, largest step) met while the
+    statement is rewritten down to the leaves: the natural scale of the
+    rounding errors of a proximal assembled by the calculus rules."""
+    p = np.asarray(p, dtype=float)
+    x = np.asarray(x, dtype=float)
+    mag = max(float(np.abs(p).max(initial=0)), float(np.abs(x).max(initial=0)))
+    sg = float(np.max(sigma))
+    kids = descend(node, p, x, sigma)
+    for k in (kids or []):
+        m2, s2 = ambient(*k)
+        mag, sg = max(mag, m2), max(sg, s2)
+    return mag, sg
 
 
 # --------------------------------------------------------------------------
